@@ -62,6 +62,8 @@ pub fn gen_config(rng: &mut Rng, o: &BenchOpts) -> Config {
     } else {
         1
     };
+    // order in which `set_clock`, `set_clock_tolerance` and `set_timeout` are called on `SimInit`
+    let t0_order = rng.below(6);
     Config {
         threads,
         chan_mask: rng.below(8) as u8,
@@ -78,6 +80,7 @@ pub fn gen_config(rng: &mut Rng, o: &BenchOpts) -> Config {
         tolerance: None,
         timeout_set: false,
         timeout_late: false,
+        builder_order: (t0_order % 6) as u8,
         timeout_at_block: None,
         wake_on_drop: false,
         drop_handles_first: false,
@@ -176,6 +179,7 @@ pub fn gen_bench(rng: &mut Rng, o: &BenchOpts) -> Case {
             panic_at: None,
             late_mailbox: false,
             reply_take: None,
+            sync_inputs: false,
         });
     }
     if o.submodels && n >= 2 {
